@@ -921,6 +921,31 @@ def register(an):
         ga = c.get('ga', [])
         return ('adt', 'core::ops::range::RangeInclusive', frozenset([0]), {(0, 'start'): args[0], (0, 'end'): args[1]}, None, tuple(ga))
 
+    @model('core::ops::range::RangeInclusive::contains', 'core::ops::range::Range::contains')
+    def m_range_contains(an, t, args, frame, st, c):
+        r = deref_val(an, args[0], frame, st)
+        x = deref_val(an, args[1], frame, st)
+        if r[0] != 'adt' or x[0] != 'int':
+            return ('bool', B_UNK)
+        lo = an.as_int(an.field_of(r, 0, 'start', st, frame), st)
+        hi = an.as_int(an.field_of(r, 0, 'end', st, frame), st)
+        xl = x[1]
+        if lo is None or hi is None:
+            return ('bool', B_UNK)
+        incl = c['fn'].startswith('core::ops::range::RangeInclusive')
+        up_op, up_neg = ('Le', 'Gt') if incl else ('Lt', 'Ge')
+        t1, f1 = st.prove_cmp('Le', lo, xl), st.prove_cmp('Gt', lo, xl)
+        t2, f2 = st.prove_cmp(up_op, xl, hi), st.prove_cmp(up_neg, xl, hi)
+        if t1 and t2:
+            return ('bool', ('const', True))
+        if f1 or f2:
+            return ('bool', ('const', False))
+        if t1:
+            return ('bool', ('cmp', up_op, xl, hi))
+        if t2:
+            return ('bool', ('cmp', 'Le', lo, xl))
+        return ('bool', B_UNK)
+
     @model('core::iter::traits::collect::IntoIterator::into_iter', 'core::slice::<impl [T]>::iter', 'core::slice::<impl [T]>::iter_mut')
     def m_into_iter(an, t, args, frame, st, c):
         v = args[0]
